@@ -107,6 +107,11 @@ def run_script(case, stats):
     items = []
     pos = 0
     pauses = 0
+    long_pauses = 0
+    # the timeout given to connect() need not be the one given to the reads
+    connect_timeout = timeout if timeout is not None or rng.random() < 0.5 else 0.15
+    # the peer may have written more than this client ever asks for (it is still unread when the client closes)
+    junk = scen.blob(case["seed"] + "junk", rng.choice([1, 3000, 20000])) if rng.random() < 0.5 else b""
     while pos < len(stream):
         n = rng.choice([1, 1, 2, 24, 100, 1460, 8000, 65536])
         items.append(("send", stream[pos:pos + n]))
@@ -118,7 +123,14 @@ def run_script(case, stats):
         elif rng.random() < 0.2:
             items.append(("pause", 0.002))
         elif timeout is None and rng.random() < 0.1 and pos < len(stream):
-            items.append(("pause", 0.08))      # with timeout None a read must simply wait for the peer
+            if connect_timeout is not None and long_pauses < 2:
+                items.append(("pause", connect_timeout * 2.5))     # longer than the timeout the CONNECT was given: irrelevant for a read without timeout
+                long_pauses += 1
+            else:
+                items.append(("pause", 0.08))      # with timeout None a read must simply wait for the peer
+    if junk:
+        items.append(("send", junk))
+        stats["unread_at_close"] = stats.get("unread_at_close", 0) + 1
     big_out = timeout is not None and rng.random() < 0.35
     outbound = [scen.blob(case["seed"] + "w%d" % i, rng.choice([1, 24, 3000, 40000])) for i in range(rng.randint(1, 4))]
     if big_out:
@@ -151,12 +163,12 @@ def run_script(case, stats):
         from adb_shell.transport.tcp_transport import TcpTransport
         t = TcpTransport("127.0.0.1", srv.port)
         with tcp_peer.SndbufPatch(8192 if big_out else None):
-            t.connect(timeout)
+            t.connect(connect_timeout)
         i = 0
         dry = 0
         guard = time.monotonic() + 60
         while len(data) < len(stream) and time.monotonic() < guard:
-            n = reqs[i % len(reqs)]
+            n = min(reqs[i % len(reqs)], len(stream) - len(data))
             i += 1
             t0 = time.monotonic()
             try:
@@ -181,9 +193,9 @@ def run_script(case, stats):
                 while left:
                     k = t.bulk_write(left, 5.0 if timeout else timeout)
                     left = left[k:]
-        except OSError:
-            if not rst:
-                raise
+        except OSError as e:
+            if not rst and not viol:
+                viol.append({"mechanism": "write-raised:%s" % type(e).__name__, "detail": "sync bulk_write raised %s: %s" % (type(e).__name__, str(e)[:100])})
         t.close()
         t.close()          # idempotent
         stats["double_closes"] += 1
@@ -209,12 +221,12 @@ def run_script(case, stats):
 
         async def go():
             t = TcpTransportAsync("127.0.0.1", srv.port)
-            await t.connect(timeout)
+            await t.connect(connect_timeout)
             i = 0
             dry = [0]
             guard = time.monotonic() + 60
             while len(data) < len(stream) and time.monotonic() < guard:
-                n = reqs[i % len(reqs)]
+                n = min(reqs[i % len(reqs)], len(stream) - len(data))
                 i += 1
                 t0 = time.monotonic()
                 try:
@@ -240,9 +252,9 @@ def run_script(case, stats):
                     k = await t.bulk_write(o, 5.0 if timeout else timeout)
                     if k != len(o):
                         viol.append({"mechanism": "write-count", "detail": "async bulk_write returned %r for %d bytes" % (k, len(o))})
-            except OSError:
-                if not rst:
-                    raise
+            except OSError as e:
+                if not rst and not viol:
+                    viol.append({"mechanism": "write-raised:%s" % type(e).__name__, "detail": "async bulk_write raised %s: %s" % (type(e).__name__, str(e)[:100])})
             await asyncio.sleep(0.02)
             await t.close()
             try:
@@ -269,14 +281,15 @@ def run_script(case, stats):
         finally:
             loop.close()
     srv.th.join(15)
-    if srv.error:
+    if srv.error and not viol:      # (after a violation the client stops early and the peer may see a broken pipe)
         raise RuntimeError("harness: script server failed: %r" % (srv.error,))
     stats["scripts"] += 1
     stats["reads_checked"] += info["reads"]
     stats["timeouts_observed"] += len(timeouts_seen)
     stats["reconnects"] += 1
     stats["bytes_read"] += len(data)
-    where = "%s transport, timeout %r, %d fragments, %d pauses" % (case["impl"], timeout, sum(1 for x in items if x[0] == "send"), pauses)
+    where = "%s transport, connect timeout %r, read timeout %r, %d fragments, %d pauses, %d bytes left unread at close" % (case["impl"], connect_timeout, timeout, sum(1 for x in items if x[0] == "send"), pauses + long_pauses, len(junk))
+    stats["long_pauses_without_timeout"] = stats.get("long_pauses_without_timeout", 0) + long_pauses
     if bytes(data) != stream:
         n = min(len(data), len(stream))
         k = next((i for i in range(n) if data[i] != stream[i]), n)
